@@ -6,6 +6,7 @@ postponement schedule imposed through a scripted scope provider, one load of
 the main file, then the oracles of the focused property.
 """
 
+import copy
 import os
 import re
 
@@ -137,6 +138,11 @@ class ScriptedProvider(ModelLoader):
             s.trace.append((ref.key, "P"))
             self.ctx.ev("prov", ref.key, "postponed")
             return Postponed()
+        real = getattr(ref, "real_name", None)
+        if real is not None:
+            # contextual name: this reference's text stands for `real` (see episode())
+            obj_ref = copy.copy(obj_ref)
+            obj_ref.obj_name = real
         res = self.base(obj, attr, obj_ref)
         if res is None:
             s.trace.append((ref.key, "N"))
@@ -406,6 +412,26 @@ def episode(ctx, t, prop, family, tools, memo, mm, rep):
         ctx.probe("scripted-provider-inside-importuri")
         if w.shadow_defs:
             ctx.probe("name-shadowed-by-the-importing-file")
+    if prop == "C34" and not inner and family != "rrel" and t.chance(1, 3, "contextual-name"):
+        # a context-dependent name (what `self`/`this`-like names of a custom provider are): several references of one
+        # file are written with the same text and the provider maps each to its own target - the definition recorded
+        # for an entry must be that of the object *this* reference resolved to, not of the first one with that text
+        cl = set(w.closure() if family != "plaingr" else w.files)
+        byfile = {}
+        for r in w.refs:
+            if r.attr != "alt" and r.text_override is None and r.target is not None and r.owner.file in cl:
+                byfile.setdefault(r.owner.file, []).append(r)
+        cands = [rs for rs in byfile.values() if len({id(r.target) for r in rs}) >= 2]
+        if cands:
+            rs = t.pick(cands, "contextual-name-file")
+            k = t.draw(len(rs), "contextual-name-first")
+            rs = rs[k:] + rs[:k]
+            chosen = [rs[0]] + [r for r in rs[1:] if r.target is not rs[0].target][:1 + t.draw(2, "contextual-name-more")]
+            for r in chosen:
+                r.real_name = r.name
+                r.text_override = "zq7"
+            w.render()
+            ctx.probe("one-reference-text-naming-different-objects")
     w.install(SIMFS)
     closure = w.closure() if family != "plaingr" else list(w.files)
     # GlobalRepo family: the main text may be given as a string without a file name (then it is not a file at all)
